@@ -54,6 +54,7 @@ type Scenario struct {
 	EmptyKeys  bool             `json:"empty_keys,omitempty"`  // the receiver has TSIG switched on (a non-nil secret map) but holds no key: no envelope can verify
 	Dial       string           `json:"dial,omitempty"`        // "" a preset connection | ok | refused : Transfer.In makes the connection itself (socket seam of the instrumented build; a preset connection elsewhere)
 	Hijack     bool             `json:"hijack,omitempty"`      // sender "out": the handler takes the connection over (Hijack), returns, and Transfer.Out carries on from another task - while a bystander asks the same server ordinary questions over connections of its own
+	OutFailAt  int              `json:"out_fail_at,omitempty"` // sender "out": the n-th write on the sender's side of the connection fails (after a prefix of the envelope, or nothing, has gone out); later writes would succeed
 	Twin       bool             `json:"twin,omitempty"`        // sender "out": the application keeps ONE dns.Transfer value for all its outgoing transfers, and a second receiver asks the same server for the same zone over a connection of its own while the first transfer runs
 	Foreign    bool             `json:"foreign,omitempty"`     // sender "out": Transfer.Out writes through a ResponseWriter that is not the library's server's - an application's own, which signs what it is given under the request's MAC and goes by the TsigTimersOnly calls it receives
 	HijackLate bool             `json:"hijack_late,omitempty"` // sender "out", paced: the handler starts Transfer.Out in a task of its own, waits until the first envelope is on its way, then takes the connection over (Hijack) and returns - the order the library's own transfer tests use
@@ -179,6 +180,9 @@ func Gen(seed uint64, tier string) any {
 	if sc.Sender == "out" && !sc.Twin && !sc.Hijack && !sc.HijackLate && sc.Dial == "" && core.Chance(r, 12) {
 		sc.Foreign = true
 	}
+	if sc.Sender == "out" && !sc.Twin && core.Chance(r, 8) {
+		sc.OutFailAt = 1 + r.IntN(len(sc.Cuts)+1)
+	}
 	defer func() {
 		if sc.OutPaceMs > 0 {
 			// a fault-free, slow transfer (the sender must have stayed the real one)
@@ -255,7 +259,7 @@ func Gen(seed uint64, tier string) any {
 		case 0:
 			sc.BadFirst = true
 		case 1:
-			sc.Rcode, sc.RcodeAt = core.Pick(r, 2, 5, 9, 1), r.IntN(nenv)
+			sc.Rcode, sc.RcodeAt = core.Pick(r, 2, 5, 9, 1, 16, 16, 17, 32), r.IntN(nenv) // (16 and up: extended RCODEs, their upper bits travel in an OPT record)
 		case 2:
 			sc.WrongID = 1 + r.IntN(nenv)
 		case 3:
@@ -500,6 +504,7 @@ type run struct {
 	serveRet            bool
 	outErr              string
 	firstFed            bool // the feeder has handed its first envelope to Transfer.Out
+	outDone             bool // Transfer.Out has returned (outErr says how)
 	sharedTr            dns.Transfer
 	twinFin             bool
 	twinsDone           int
@@ -738,6 +743,9 @@ func (s *scriptedTask) RunEvent(time.Time) {
 		m.Authoritative = true
 		m.Answer = rrs
 		if sc.Rcode != 0 && sc.RcodeAt == i {
+			if sc.Rcode > 15 {
+				m.SetEdns0(1232, false)
+			}
 			m.Rcode = sc.Rcode
 		}
 		if sc.WrongID == i+1 {
@@ -894,7 +902,7 @@ func (t *twinTask) RunEvent(time.Time) {
 	}
 	k.Lock()
 	x.res.Stats["oracle.T1_second_receiver_served"]++
-	if sc.BadFirst || sc.RcodeAt > 0 || sc.WrongID > 0 {
+	if sc.BadFirst || sc.Rcode != 0 || sc.WrongID > 0 {
 		// (the sender's own script is faulty: nothing to ask of this transfer)
 	} else if cerr != "" || got != want {
 		x.res.Fail("T1", "second-receiver-failed", "a second receiver that asked the same server for the same zone over a connection of its own, while another transfer was being sent, got %d of %d records and the error %q", got, want, cerr)
@@ -1041,7 +1049,7 @@ func (x *run) serveTransfer(w dns.ResponseWriter, r *dns.Msg) {
 	ch := make(chan *dns.Envelope, len(envs))
 	if x.sc.OutPaceMs > 0 {
 		// the application produces the zone slowly
-		ch = make(chan *dns.Envelope)
+		ch = make(chan *dns.Envelope, len(envs)) // (room for all: a Transfer.Out that gives up must not leave the feeder stuck)
 		x.k.Go("feeder", &feeder{x, ch, envs})
 		x.k.Bump("fault.sender_paces_envelopes")
 	} else {
@@ -1057,7 +1065,7 @@ func (x *run) serveTransfer(w dns.ResponseWriter, r *dns.Msg) {
 	err := tr.Out(w, r, ch)
 	x.k.Lock()
 	if r.Id == x.qid {
-		x.outErr = common.ErrStr(err)
+		x.outErr, x.outDone = common.ErrStr(err), true
 	}
 	x.k.Unlock()
 	// leave the connection to the client / relay to close
@@ -1215,6 +1223,9 @@ func runIn(sc *Scenario, res *core.Result, verbose bool) {
 			x.srv.TsigSecret = secrets()
 		}
 		relayS = n.Dial(x.l, true)
+		if sc.OutFailAt > 0 && relayS.Peer != nil {
+			relayS.Peer.FailWriteNth = sc.OutFailAt
+		}
 		if sc.Foreign {
 			x.srv = nil
 			k.Go("serve", &foreignTask{x})
@@ -1357,6 +1368,16 @@ func (x *run) judge(start0 time.Time) {
 		res.Bump("oracle.T4_out_not_timed_out")
 		if strings.Contains(x.outErr, "timeout") {
 			res.Fail("T4", "out-timeout-on-healthy-link", "Transfer.Out, fed one envelope every %d ms over a link without faults to a receiver that reads at once, returned %q after %d of %d envelopes had been written", sc.OutPaceMs, x.outErr, len(original), len(envelopes(sc)))
+			return
+		}
+	}
+	// sender side: a Transfer.Out that came back without an error has put every envelope it was handed on the
+	// wire, whole - whatever happened to a write on the way is Out's to report
+	if sc.Sender == "out" && x.outDone && x.outErr == "" {
+		res.Bump("oracle.T4_out_nil_means_all_written")
+		wrote, _ := oracle.Frames(x.relay.ToServer.Peer.Sent())
+		if fed := len(envelopes(sc)); len(wrote) < fed {
+			res.Fail("T4", "out-error-swallowed", "Transfer.Out was handed %d envelopes and returned nil, but only %d whole envelopes were written to the sender's socket (a write failed on the way: %v)", fed, len(wrote), sc.OutFailAt > 0)
 			return
 		}
 	}
